@@ -117,57 +117,78 @@ class Rig:
         self.REQ = [(b":method", b"GET"), (b":scheme", b"https"), (b":authority", b"a"), (b":path", b"/")]
 
     def encode_block(self, enc, sid, headers, how):
+        """(block, bytes for the QPACK encoder stream)"""
         if how == "literal" or any(len(n) == 0 for n, _ in headers):
-            return qpack_literal(headers)
+            return qpack_literal(headers), b""
+        if how == "dynamic":
+            # the list encoded once for another stream enters the dynamic table;
+            # the block for our stream then refers to those entries
+            warm, _ = enc.encode(sid + 400, headers)
+            more, block = enc.encode(sid, headers)
+            return block, warm + more
         stream_bytes, block = enc.encode(sid, headers)
         if stream_bytes:
             raise MachineryError("raw QPACK encoder used the dynamic table")
-        return block
+        return block, b""
 
     def build(self, scn, enc_how="lsqpack"):
         """The bytes of the stream under test: (payload, length of each frame's
-        share of it, deliverable).  Deliverable = an independent QPACK decoder
-        turns every block back into the list it was made from."""
+        share of it, deliverable, bytes of the peer's QPACK encoder stream,
+        whether a PUSH_PROMISE block depends on them).  Deliverable = an
+        independent QPACK decoder turns every block back into the list it was
+        made from."""
         sid = 0 if scn["chan"] == "request" else 15
         enc = self.pylsqpack.Encoder()
         dec = self.pylsqpack.Decoder(4096, 16)
+        estream = enc.apply_settings(max_table_capacity=4096, blocked_streams=16) if enc_how == "dynamic" else b""
         prefix = varint(1) + varint(0) if scn["chan"] == "push" else b""   # stream type PUSH, push id 0
-        parts, ok = [], True
+        parts, blocks, bp = [], [], False
         for f in scn["frames"]:
             if f["t"] == "D":
                 parts.append(frame(FT_DATA, b"x" * f["n"]))
                 continue
             headers = [(bytes(n), bytes(v)) for n, v in f["hs"]]
-            block = self.encode_block(enc, sid, headers, enc_how)
-            try:
+            block, more = self.encode_block(enc, sid, headers, enc_how)
+            estream += more
+            blocks.append((block, headers))
+            bp = bp or (f["t"] == "P" and block[:1] != b"\x00")      # required insert count > 0
+            parts.append(frame(FT_HEADERS, block) if f["t"] == "H" else frame(FT_PUSH_PROMISE, varint(1) + block))
+        ok = True
+        try:
+            if estream:
+                dec.feed_encoder(estream)
+            for block, headers in blocks:
                 _, got = dec.feed_header(sid, block)
                 ok = ok and got == headers
-            except self.pylsqpack.DecompressionFailed:
-                ok = False
-                dec = self.pylsqpack.Decoder(4096, 16)
-            parts.append(frame(FT_HEADERS, block) if f["t"] == "H" else frame(FT_PUSH_PROMISE, varint(1) + block))
+        except (self.pylsqpack.DecompressionFailed, self.pylsqpack.EncoderStreamError, self.pylsqpack.StreamBlocked):
+            ok = False
         if parts:
             parts[0] = prefix + parts[0]
-        return b"".join(parts), [len(x) for x in parts], ok
+        return b"".join(parts), [len(x) for x in parts], ok, estream, bp
 
     def run(self, scn, cuts, enc_how="lsqpack", built=None):
         """Replay one scenario.  `cuts` = chunk sizes of the stream under test
-        (None = whole).  Returns the record for TraceHeaderRules."""
+        (None = whole).  With enc_how = "dynamic" the peer's QPACK encoder stream
+        arrives after the stream under test (whose header blocks wait for it).
+        Returns the record for TraceHeaderRules."""
         role, chan, fin = scn["role"], scn["chan"], scn["fin"]
-        payload, _, ok = built or self.build(scn, enc_how)
+        payload, _, ok, estream, bp = built or self.build(scn, enc_how)
         q = FakeQuic(self.cfg[role])
         h3 = self.h3c.H3Connection(q)
+        peer_encoder_stream = None
         for sid, data in self.peer_init[role]:
             h3.handle_event(self.SDR(data=data, end_stream=False, stream_id=sid))
+            if data[:1] == b"\x02":
+                peer_encoder_stream = sid
         sid = 0
         if role == "client":
             sid = q.get_next_available_stream_id()
             h3.send_headers(sid, self.REQ, end_stream=True)       # the request being answered
             if chan == "push":                                     # a pushed response follows a promise
-                promise = frame(FT_PUSH_PROMISE, varint(0) + self.encode_block(self.pylsqpack.Encoder(), sid, self.REQ, enc_how))
+                promise = frame(FT_PUSH_PROMISE, varint(0) + self.encode_block(self.pylsqpack.Encoder(), sid, self.REQ, "lsqpack")[0])
                 h3.handle_event(self.SDR(data=promise, end_stream=False, stream_id=sid))
                 sid = 15                                           # the server's 4th unidirectional stream
-        if sid != (0 if chan == "request" else 15) or q.closed is not None:
+        if sid != (0 if chan == "request" else 15) or q.closed is not None or peer_encoder_stream is None:
             raise MachineryError("scenario preamble went wrong: stream %d, closed %r" % (sid, q.closed))
         chunks, pos = [], 0
         for c in (cuts or [len(payload)]):
@@ -176,19 +197,21 @@ class Rig:
         if pos < len(payload):
             chunks.append(payload[pos:])
         events, raised = [], ""
-        feeds = [(c, fin == "last" and i == len(chunks) - 1) for i, c in enumerate(chunks)]
+        feeds = [(sid, c, fin == "last" and i == len(chunks) - 1) for i, c in enumerate(chunks)]
         if fin == "lone":
-            feeds.append((b"", True))
-        for data, end in feeds:
+            feeds.append((sid, b"", True))
+        if estream:
+            feeds.append((peer_encoder_stream, estream, False))
+        for on, data, end in feeds:
             try:
-                evs = h3.handle_event(self.SDR(data=data, end_stream=end, stream_id=sid))
+                evs = h3.handle_event(self.SDR(data=data, end_stream=end, stream_id=on))
             except Exception as ex:       # an exception is not an outcome the property knows
                 raised = type(ex).__name__
                 break
             for ev in evs:
                 if getattr(ev, "stream_id", None) == sid:
                     events.append(self.project(ev))
-        return {"role": role, "chan": chan, "frames": scn["frames"], "fin": fin, "ok": ok,
+        return {"role": role, "chan": chan, "frames": scn["frames"], "fin": fin, "ok": ok, "bp": bp,
                 "events": events, "close": q.closed or 0, "raised": raised}
 
     def project(self, ev):
@@ -206,7 +229,7 @@ class Rig:
 def cuts_for(built, mode, rnd):
     """Chunk sizes for the stream under test.  whole: one event; frames: one
     event per frame; bytes: one per byte; two / rand: seeded cut points."""
-    payload, lens, _ = built
+    payload, lens = built[0], built[1]
     total = len(payload)
     if mode == "whole":
         return None
@@ -338,17 +361,16 @@ def rand_scenario(rnd):
 
 
 # -------------------------------------------------------------------- judging
-def first_block_label(rec):
-    for f in rec["frames"]:
-        if f["t"] != "D":
-            return f["t"]
-    return "-"
-
-
-def signature(rec, clause):
-    return "h3-message:%s:role=%s:chan=%s:fin=%s:close=%s%s" % (
-        clause, rec["role"], rec["chan"], rec["fin"], hex(rec["close"]) if rec["close"] else "none",
-        ":raised=" + rec["raised"] if rec["raised"] else "")
+def signature(rec, meta, clause):
+    """Failing clause (with the kind of block and the rule broken, named by TLC)
+    + the class of the input: role, stream, where the end of stream is, close
+    code; for the content-length clauses also the frame sequence and chunking."""
+    extra = ""
+    if "content-length" in clause:
+        extra = ":frames=%s:chunks=%s" % ("".join(f["t"] for f in rec["frames"]), meta["family"].split("/")[1])
+    return "h3-message:%s:role=%s:chan=%s:fin=%s%s:close=%s%s" % (
+        clause, rec["role"], rec["chan"], rec["fin"], extra,
+        hex(rec["close"]) if rec["close"] else "none", ":raised=" + rec["raised"] if rec["raised"] else "")
 
 
 def judge(check, records, metas, name):
@@ -373,9 +395,9 @@ def judge(check, records, metas, name):
         if clause == "harness-guard":
             raise MachineryError("driver produced a scenario outside the environment's alphabet: %r" % (detail,))
         if clause.startswith("model:"):
-            check.drift(signature(rec, clause), detail)
+            check.drift(signature(rec, meta, clause), detail)
         else:
-            check.violation(signature(rec, clause), detail)
+            check.violation(signature(rec, meta, clause), detail)
     return fails
 
 
@@ -391,7 +413,7 @@ def replay(check, rig):
     rec = rig.run(d["scenario"], d["cuts"], d["enc"])
     if not rec["ok"]:
         raise MachineryError("replayed scenario is not deliverable (QPACK)")
-    judge(check, [rec], [{"cuts": d["cuts"], "enc": d["enc"], "family": d.get("family", "replay")}], "replay")
+    judge(check, [rec], [{"cuts": d["cuts"], "enc": d["enc"], "family": d["family"]}], "replay")
     check.count(repr(d["scenario"]), nontrivial=True)
     check.sample({"replayed": rec})
     check.cov["rule"] = "replay of one recorded scenario, judged again by TLC"
@@ -449,6 +471,24 @@ def run(check):
                 records.append(rec)
                 metas.append({"cuts": cuts, "enc": "lsqpack", "family": fam + "/" + mode})
         lap("replay_" + fam)
+    # Q: enumerated scenarios again, their header blocks referring to the QPACK
+    # dynamic table and arriving before the peer's encoder stream (blocked, then resumed)
+    qmax = 2 if quick else 3
+    qcases = [c for c in families["B"] if all(len(f["hs"]) <= qmax for f in c["frames"])] + families["D"] + \
+             ([] if quick else families["C"])
+    waited = 0
+    for scn in qcases:
+        built = rig.build(scn, "dynamic")
+        if not built[2]:
+            skipped["Q"] = skipped.get("Q", 0) + 1
+            continue
+        waited += any(p[:1] != b"\x00" for p in [built[0]]) and bool(built[3])
+        for mode in (("whole",) if quick else ("whole", "bytes")):
+            cuts = cuts_for(built, mode, rnd)
+            records.append(rig.run(scn, cuts, "dynamic", built=built))
+            metas.append({"cuts": cuts, "enc": "dynamic", "family": "Q/" + mode})
+    fam_counts["Q"] = len(qcases)
+    lap("replay_Q")
     check.cov["tlc_enumerated_scenarios"] = fam_counts
 
     # (V) seeded random scenarios
@@ -459,7 +499,7 @@ def run(check):
         if any(f["t"] != "D" and not f["hs"] for f in scn["frames"]):
             continue                                  # ls-qpack cannot carry an empty field section
         mode = rnd.choice(("whole", "frames", "bytes", "two", "rand"))
-        how = "literal" if rnd.random() < 0.25 else "lsqpack"
+        how = rnd.choice(("lsqpack", "lsqpack", "lsqpack", "literal", "dynamic"))
         built = rig.build(scn, how)
         cuts = cuts_for(built, mode, rnd)
         rec = rig.run(scn, cuts, how, built=built)
@@ -512,8 +552,9 @@ def run(check):
         "H3Connection sits on a stub of QuicConnection (after tests/test_h3.py); qlog is off",
         "the peer respects frame sequencing (HEADERS, DATA*, optional trailers; complete frames); malformed frames and "
         "frame sequences are property C16",
-        "header blocks use the static table and literals only (raw pylsqpack.Encoder / hand-written literal encoding); "
-        "blocks that ls-qpack's decoder refuses (empty field section, empty name) are counted, not judged",
+        "header blocks come from a raw pylsqpack.Encoder (static table and literals), a hand-written literal encoding, or "
+        "(family Q, a fifth of V) refer to the dynamic table and arrive before the peer's encoder stream; blocks that "
+        "ls-qpack's decoder refuses (empty field section, empty name) are counted, not judged",
         "a content-length declares a length when it is 1*DIGIT of at most 9 digits; with several differing declarations only "
         "'no declared value matches' is judged",
         "a PUSH_PROMISE block is a request block: it needs :method"]
